@@ -569,7 +569,8 @@ TRANSLATED = {
     "C10": ["tr_termination.py -> Gen/GenTermination.v",
             "tr_ui.py -> Gen/GenUi.v (escape_braces, detail_indent, details_escaped, output_passes_ind)",
             "tr_main.py -> Gen/GenMain.v (exit_status, config_errors_are_ui_errors, ui_error_printed_through_format)",
-            "tr_filter.py -> Gen/GenFilter.v (filter_branches, chain_ends_in_configuration_error, every_argument_reaches_the_filters)"],
+            "tr_filter.py -> Gen/GenFilter.v (filter_branches, chain_ends_in_configuration_error, every_argument_reaches_the_filters)",
+            "tr_messages.py -> Gen/GenMessages.v (message_sites: every rendering call of the UI and every UIError in rebench/, clean or not; message_literals)"],
     "C11": ["tr_termination.py -> Gen/GenTermination.v", "tr_facts.py -> Gen/GenFactsPersist.v (persist_locked)",
             "tr_par.py -> Gen/GenPar.v (num_threads, take_items, acquire_locked, acquire_pops, workers_loop, one_worker_per_thread)"],
     "C12": ["tr_regex.py -> Gen/GenRegex.v"],
